@@ -1086,6 +1086,38 @@ def zero_rules(rep, m):
         raise AnalysisError('anchor vanished: gnss.remove_matrixzeros_sinex')
     o = Out(rep, 'R-INDEX', f)
     body = f.node.body
+    # a zero test by spelling must know every spelling the module itself writes: the editors' own matrix formats are cross-checked
+    import re as _re
+    lits = set()
+    for n_ in ast.walk(f.node):
+        if isinstance(n_, ast.Compare) and len(n_.ops) == 1 and isinstance(n_.ops[0], ast.Eq):
+            for c_ in [n_.left] + n_.comparators:
+                if isinstance(c_, ast.Constant) and isinstance(c_.value, str) and _re.match(r'^-?0\.0+[eE][+-]0+$', c_.value):
+                    lits.add(c_.value)
+    if lits:
+        writers = []
+        for en in ('remove_stns_sinex', 'remove_velocity_sinex'):
+            g = m.functions.get(en)
+            if g is None:
+                continue
+            for n_ in ast.walk(g.node):
+                specs = []
+                if isinstance(n_, ast.Constant) and isinstance(n_.value, str):
+                    specs = _re.findall(r'\{[^{}]*:>?\d*\.\d+([eE])\}', n_.value)
+                if isinstance(n_, ast.FormattedValue) and n_.format_spec is not None:
+                    sp_ = ''.join(str(c_.value) for c_ in n_.format_spec.values if isinstance(c_, ast.Constant))
+                    specs = _re.findall(r'\d*\.\d+([eE])$', sp_)
+                for letter in specs:
+                    writers.append((en, letter, n_))
+        lit_letters = set('e' if 'e' in l_ else 'E' for l_ in lits)
+        strangers = [(en, letter, n_) for en, letter, n_ in writers if letter not in lit_letters]
+        if strangers:
+            en, letter, n_ = strangers[0]
+            o.bad('zero-line::spelling', n_, 'all-zero lines are recognised by the spelling %s only, but %s writes the matrix with a %s-case exponent (0.00000000000000%s+00): '
+                  'the zero lines of a file it produced - and of any SINEX written with that spelling - are never removed' % (sorted(lits)[0], en, 'upper' if letter == 'E' else 'lower', letter),
+                  expected='a numeric test (float(v) == 0) or both spellings', actual='== "%s"' % sorted(lits)[0])
+        else:
+            o.ok('zero-line::spelling', None, 'the zero spelling tested is the one every editor of the module writes')
     # local string constants
     consts = {}
     for s in walk_stmts(body):
